@@ -316,7 +316,20 @@ def model_read(ctx, lines, cfg=(0, 0)):
         raise RuntimeError('driver: ' + rep[:200])
     if t.nat() == 0:
         return None
+    return _parse_mshread(t, rep)
 
+
+def model_canon(ctx, case):
+    """(decide (Femio.C01.WF m), Femio.C01.canon m): hypothesis and right-hand side of theorem C01_roundtrip"""
+    rep = ctx.driver.ask('c01.canon ' + enc_case(case))
+    t = C.Toks(rep)
+    if t.tok() != 'ok':
+        raise RuntimeError('driver: ' + rep[:200])
+    wf = t.nat() == 1
+    return wf, _parse_mshread(t, rep)
+
+
+def _parse_mshread(t, rep):
     def row_d():
         i = t.nat()
         return i, t.lst(lambda: X.read_dec(t))
@@ -593,6 +606,19 @@ def eval_case(ctx, case, n_variants):
         k = 'model-raises' if mr is None else same_read(got, mr)
         if k:
             ctx.disagree('msh read: ' + k, {'mesh': case}, got.get(k), None if mr is None else mr.get(k))
+    # 4b. theorem C01_roundtrip instantiated on this case: its hypothesis `WF m` must hold for the generated
+    #     (in-quantifier) input and its right-hand side `canon m` must be what the REAL reader returned
+    if ctx.driver is not None and case['decimal']:
+        wf, canon = model_canon(ctx, case)
+        ctx.count('theorem-hypothesis WF:' + str(wf).lower())
+        if not wf:
+            ctx.disagree('generated in-quantifier case is outside Femio.C01.WF (hypothesis of C01_roundtrip)',
+                         {'mesh': case}, 'in quantifier', 'WF = false')
+        else:
+            k = same_read(got, canon)
+            if k:
+                ctx.disagree('msh canon (right-hand side of C01_roundtrip) vs real reader: ' + k, {'mesh': case},
+                             got.get(k), canon.get(k))
     # 5. formatting variants
     for kind in rnd.sample(['G1', 'G2', 'G3', 'G4'], n_variants):
         run_variant(ctx, case, d, lines, got, kind)
